@@ -146,6 +146,9 @@ func sameArgs(a, b []interface{}) bool {
 
 var raceLog string
 
+// zombies: set once an execution deadlocked or hung (its threads stay parked for ever); see C10.
+var zombies bool
+
 func raceLogSize() int64 {
 	if raceLog == "" {
 		return 0
@@ -349,7 +352,7 @@ func run(c *runner.Ctx) {
 			os.Exit(3)
 		}
 		if race {
-			if raceLogSize() > before {
+			if raceLogSize() > before && !zombies { // after a deadlock the abandoned threads make race reports unattributable
 				rep := raceReportFrom(before)
 				c.Violation("data-race:"+raceSig(rep), map[string]interface{}{"cache": cf.name, "threads": names, "bound": bound, "report": rep})
 				reported["race"] = true
